@@ -128,6 +128,66 @@ def run(rep, tier, rng, replay=None):
                           dict(kind="writer-program", items=[c01.item_tok(x) for x in progs[i]]))
             break
 
+    # ---- (ii-b) page sizes other than 1024: validate_crc, raw_xml and the page reader accept any page size the
+    #      header states, so the checksum is computed over payloads whose length is not a multiple of four
+    ps_cases, ps_meta = [], []
+    r2 = core.Rng(rng.next())
+    for ps in [52, 53, 54, 55, 64, 100, 513, 515, 1021, 1022, 1023, 1025, 1026, 1027, 2048, 4099] + [r2.range(52, 3000) for _ in range(8 if tier == "quick" else 80)]:
+        pay = ps - 4
+        npages = r2.range(2, 4)
+        log = bytearray(r2.bytes(npages * pay))
+        # header: signature, version 1.0, physical length, XML offset/length inside page 1, page size
+        xml_log_off = pay + r2.range(0, max(0, pay - 20))
+        xml_len = r2.range(1, 16)
+        phys_xml_off = xml_log_off + 4 * (xml_log_off // pay)
+        log[0:48] = b"ASTM-E57" + (1).to_bytes(4, "little") + (0).to_bytes(4, "little") + (npages * ps).to_bytes(8, "little") + \
+            phys_xml_off.to_bytes(8, "little") + xml_len.to_bytes(8, "little") + ps.to_bytes(8, "little")
+        dev = bytearray()
+        for p in range(npages):
+            pl = bytes(log[p * pay:(p + 1) * pay])
+            dev += pl + crc.crc32c(pl).to_bytes(4, "big")
+        want_xml = bytes(log[xml_log_off:xml_log_off + xml_len])
+        variants = [("intact", bytes(dev))]
+        for p in range(npages):
+            for back in (1, 2, 3, 4, 5):       # the last payload bytes of each page
+                d2 = bytearray(dev); d2[p * ps + pay - back] ^= 1 << r2.below(8); variants.append(("flip-last-%d" % back, bytes(d2)))
+            d2 = bytearray(dev); d2[p * ps + r2.below(pay)] ^= 1 << r2.below(8); variants.append(("flip-random", bytes(d2)))
+        for kind, d in variants:
+            # the flip may hit the header's page-size field itself: then the file describes another page size; skip those
+            if d[40:48] != bytes(dev[40:48]) or d[0:8] != b"ASTM-E57":
+                continue
+            ps_cases += ["VCRC - " + d.hex(), "RAWXML - " + d.hex(), "PR - %d %s s0 x%d s%d x%d" % (ps, d.hex(), pay, ps, pay)]
+            ps_meta.append((ps, kind, want_xml, d))
+    pa = core.run_cases(impl, ps_cases)
+    ph = core.run_cases(impl_hw, ps_cases)
+    pm = core.run_cases(core.DRIVER, ps_cases)
+    rep.count(len(ps_cases))
+    rep.cov["other_page_size_cases"] = len(ps_cases)
+    for k, (ps, kind, want_xml, d) in enumerate(ps_meta):
+        v, x, pr = pa[3 * k], pa[3 * k + 1], pa[3 * k + 2]
+        rep.distinct(("ps", ps, kind, gen.fnv_hex(d)))
+        bad = None
+        if kind == "intact":
+            if v != "ok %d" % ps:
+                bad = "validate_crc rejects an intact file with page size %d (%s)" % (ps, v)
+            elif x != "ok n=%d h=%s" % (len(want_xml), gen.fnv_hex(want_xml)):
+                bad = "raw_xml of an intact file with page size %d returns %s" % (ps, x)
+        else:
+            if not v.startswith("e"):
+                bad = "validate_crc accepts a file with page size %d after a %s alteration (%s)" % (ps, kind, v)
+            elif x.startswith("ok") and x != "ok n=%d h=%s" % (len(want_xml), gen.fnv_hex(want_xml)):
+                bad = "raw_xml returns altered bytes (page size %d, %s)" % (ps, kind)
+        if bad:
+            rep.violation("crc-other-page-size", bad, dict(kind="crc-page-size", page_size=ps, alteration=kind, file=d.hex()))
+            break
+        for j in range(3):
+            if pa[3 * k + j] != pm[3 * k + j] or pa[3 * k + j] != ph[3 * k + j]:
+                which = "model/implementation" if pa[3 * k + j] != pm[3 * k + j] else "built-in CRC/crc32c feature"
+                if rep.violation("correspondence-c07", "%s differ on %s with page size %d (%s): impl=%s other=%s" % (
+                        which, ps_cases[3 * k + j].split()[0], ps, kind, pa[3 * k + j][:120], (pm if pa[3 * k + j] != pm[3 * k + j] else ph)[3 * k + j][:120]),
+                        dict(kind="crc-page-size", page_size=ps, alteration=kind, file=d.hex(), failing="correspondence on page sizes other than 1024"), no_input=True):
+                    break
+
     # ---- (iii) alterations
     bases = make_bases(core.Rng(rng.next()), impl)
     prelude = ["BASE %s %s" % (b["name"], b["dev"].hex()) for b in bases]
